@@ -349,6 +349,16 @@ mut(
 )
 
 
+mut(
+    "c16-revert-version-char-check",
+    "C16",
+    "bits/utils.py",
+    '    assert data[0:1] in bip173.bech32_int_map, "invalid witness version character"\n',
+    "",
+    runs=1600,
+)
+
+
 def _scratch_root():
     base = "/dev/shm" if os.path.isdir("/dev/shm") else tempfile.gettempdir()
     return tempfile.mkdtemp(prefix="bits-sens-", dir=base)
